@@ -40,6 +40,7 @@ def main():
     signal.signal(signal.SIGALRM, on_alarm)
     signal.alarm(budget)
 
+    common.acquire_run_lock()
     mod = importlib.import_module(f"props.{prop.lower()}")
     ctx = Ctx(prop, args.tier, seed)
     ctx.assumptions = list(getattr(mod, "ASSUMPTIONS", []))
@@ -95,6 +96,12 @@ def main():
                 else:
                     obligations = max(1, len(getattr(mod, "EXPECTED_THEOREMS", [])) or 1)
                     discharged = 0
+        if args.tier == "thorough" and not args.no_build and not any(b.startswith("lake build") for b in broken):
+            # independent kernel re-check of the compiled theorems (outside the build lock: read-only)
+            lc_ok, lc_out = common.leanchecker(lean_modules)
+            ctx.extra["leanchecker"] = {"modules": lean_modules, "ok": lc_ok}
+            if not lc_ok:
+                broken.append("leanchecker rejects the compiled modules: " + lc_out[-400:])
         # known-finding bookkeeping, corpus, correspondence, oracle
         mod.run(ctx)
         if (broken or ctx.mismatches) and not ctx.violations and hasattr(mod, "search"):
